@@ -267,7 +267,7 @@ def check_any(ctx, case):
 
 
 FAMILIES = [
-    Family('pairs', check_any, strategy=lambda tier: pair_case(), n=(8000, 300000)),
-    Family('stereo', check_any, strategy=lambda tier: stereo_case(), n=(1500, 60000)),
+    Family('pairs', check_any, strategy=lambda tier: pair_case(), n=(20000, 300000)),
+    Family('stereo', check_any, strategy=lambda tier: stereo_case(), n=(4000, 60000)),
     Family('bounded-exhaustive', check_any, enumerate=enum_small, stride=(25, 1)),
 ]
